@@ -138,9 +138,15 @@ Definition init (cs : list answer) (rs : nat -> list sig) : st := mks init_vars 
 Definition no_reads : nat -> list sig := fun _ => [].
 
 (* ---- signals --------------------------------------------------------------- *)
-(* munged.c, sig_handler: SIGHUP -> got_reconfig = sig; SIGINT/SIGTERM -> got_terminate = sig *)
+(* munged.c, sig_handler: SIGHUP -> got_reconfig = sig; SIGINT/SIGTERM -> got_terminate = sig
+   (translated from munged.c's text into GenJob.src_handler; Properties_C12_job.v: src_handler = handler) *)
+Inductive sigflag := FTerm | FReconf | FNone.
+Definition handler (s : sig) : sigflag := match s with SIGHUP => FReconf | SIGINT | SIGTERM => FTerm end.
 Definition deliver1 (x : st) (s : sig) : st :=
-  mks (match s with SIGHUP => set_reconf (signo s) (vs x) | _ => set_term (signo s) (vs x) end)
+  mks (match handler s with
+       | FReconf => set_reconf (signo s) (vs x)
+       | FTerm => set_term (signo s) (vs x)
+       | FNone => vs x end)
       (calls x) (reads x) (rdx x) (ESig s :: trace x).
 Definition deliver (l : list sig) (x : st) : st := fold_left deliver1 l x.
 
@@ -160,41 +166,35 @@ Definition keep (_ : Z) (v : vars) : vars := v.
 Definition msgfd (v : vars) : Z := match v_msg v with Some fd => fd | None => -2 end.
 
 (* ---- conditions ------------------------------------------------------------ *)
-Fixpoint eval_cond (c : cond) (x : st) : option (bool * st) :=
+Fixpoint eval_cond (c : cond) (x : st) : option bool * st :=
   match c with
-  | CTerm => let x := sync x in Some (negb (g_term (vs x) =? 0), x)
-  | CReconf => let x := sync x in Some (negb (g_reconf (vs x) =? 0), x)
-  | CSdNeg => Some (v_sd (vs x) <? 0, x)
-  | CSdNonneg => Some (0 <=? v_sd (vs x), x)
-  | CErrnoIn l => Some (existsb (errno_eqb (v_errno (vs x))) l, x)
-  | CTimeFailed => Some (v_ctime (vs x) =? -1, x)
-  | CTimeAfter lim => Some (v_ltime (vs x) + lim <? v_ctime (vs x), x)
-  | CErrnoChanged => Some (negb (errno_eqb (v_cerrno (vs x)) (v_lerrno (vs x))), x)
+  | CTerm => let x := sync x in (Some (negb (g_term (vs x) =? 0)), x)
+  | CReconf => let x := sync x in (Some (negb (g_reconf (vs x) =? 0)), x)
+  | CSdNeg => (Some (v_sd (vs x) <? 0), x)
+  | CSdNonneg => (Some (0 <=? v_sd (vs x)), x)
+  | CErrnoIn l => (Some (existsb (errno_eqb (v_errno (vs x))) l), x)
+  | CTimeFailed => (Some (v_ctime (vs x) =? -1), x)
+  | CTimeAfter lim => (Some (v_ltime (vs x) + lim <? v_ctime (vs x)), x)
+  | CErrnoChanged => (Some (negb (errno_eqb (v_cerrno (vs x)) (v_lerrno (vs x)))), x)
   | CInitFails =>
       match call (fun r _ => EInit (r =? 0)) keep x with
-      | None => None | Some (r, x') => Some (negb (r =? 0), x') end
+      | None => (None, x) | Some (r, x') => (Some (negb (r =? 0)), x') end
   | CNonblockFails =>
       match call (fun r v => ENonblock (v_sd v) (r =? 0)) keep x with
-      | None => None | Some (r, x') => Some (negb (r =? 0), x') end
+      | None => (None, x) | Some (r, x') => (Some (negb (r =? 0)), x') end
   | CCreateFails =>
       match call (fun r _ => ECreate (r =? 0)) (fun r v => if r =? 0 then set_msg (Some (-1)) v else v) x with
-      | None => None | Some (r, x') => Some (negb (r =? 0), x') end
+      | None => (None, x) | Some (r, x') => (Some (negb (r =? 0)), x') end
   | CBindFails =>
       match call (fun r v => EBind (v_sd v) (r =? 0))
                  (fun r v => if r =? 0 then match v_msg v with Some _ => set_msg (Some (v_sd v)) v | None => v end else v) x with
-      | None => None | Some (r, x') => Some (negb (r =? 0), x') end
+      | None => (None, x) | Some (r, x') => (Some (negb (r =? 0)), x') end
   | CQueueFails =>
       match call (fun r v => EQueue (msgfd v) (r =? 0)) (fun r v => if r =? 0 then set_msg None v else v) x with
-      | None => None | Some (r, x') => Some (negb (r =? 0), x') end
-  | CNot c => match eval_cond c x with None => None | Some (b, x') => Some (negb b, x') end
-  | CAnd a b => match eval_cond a x with
-                | None => None
-                | Some (false, x') => Some (false, x')
-                | Some (true, x') => eval_cond b x' end
-  | COr a b => match eval_cond a x with
-               | None => None
-               | Some (true, x') => Some (true, x')
-               | Some (false, x') => eval_cond b x' end
+      | None => (None, x) | Some (r, x') => (Some (negb (r =? 0)), x') end
+  | CNot c => match eval_cond c x with (Some b, x') => (Some (negb b), x') | r => r end
+  | CAnd a b => match eval_cond a x with (Some true, x') => eval_cond b x' | r => r end
+  | COr a b => match eval_cond a x with (Some false, x') => eval_cond b x' | r => r end
   end.
 
 (* ---- statements ------------------------------------------------------------ *)
@@ -213,9 +213,9 @@ Fixpoint exec (s : stmt) (x : st) : ctl * st :=
   | SSkip => (KNormal, x)
   | SSeq a b => match exec a x with (KNormal, x') => exec b x' | r => r end
   | SIf c a b => match eval_cond c x with
-                 | None => (KStuck, x)
-                 | Some (true, x') => exec a x'
-                 | Some (false, x') => exec b x' end
+                 | (None, x') => (KStuck, x')
+                 | (Some true, x') => exec a x'
+                 | (Some false, x') => exec b x' end
   | SLog p t => let x := if reads_flag t then sync x else x in
                 void_call (fun v => ELog p t (log_arg t v)) (fun v => v) x
   | SFatal t => (KFatal, mks (vs x) (calls x) (reads x) (rdx x) (EFatal t :: trace x))
@@ -247,9 +247,9 @@ Fixpoint loop (fuel : nat) (c : cond) (body : stmt) (x : st) : ctl * st :=
   | O => (KSpin, x)
   | S f =>
       match eval_cond c x with
-      | None => (KStuck, x)
-      | Some (false, x') => (KNormal, x')
-      | Some (true, x') =>
+      | (None, x') => (KStuck, x')
+      | (Some false, x') => (KNormal, x')
+      | (Some true, x') =>
           match exec body x' with
           | (KNormal, x'') | (KContinue, x'') =>
               if (length (calls x'') <? length (calls x))%nat then loop f c body x'' else (KSpin, x'')
@@ -276,10 +276,10 @@ Definition run (p : prog) (isigs : list sig) (cs : list answer) (rs : nat -> lis
 (* the function returned or the process exited (as opposed to: blocked in a call for ever, busy loop) *)
 Definition ended (k : ctl) : bool := match k with KStuck | KSpin => false | _ => true end.
 
-(* ---- job_accept as it is in job.c ------------------------------------------- *)
+(* ---- job_accept as it is in job.c, for any value of LOG_LIMIT_SECS ---------------- *)
 Definition log_limit_secs : Z := 60.
 
-Definition job_ref : prog := mkprog
+Definition job_prog (lim : Z) : prog := mkprog
   (seq [SIf (CInitFails) (seq [SFatal FInit]) (seq []);
         SLog PInfo TCreated])
   (CNot CTerm)
@@ -290,7 +290,7 @@ Definition job_ref : prog := mkprog
                (seq [SIf (CErrnoIn [EMFILE; ENFILE; ENOBUFS; ENOMEM])
                   (seq [SSaveErrno; STime;
                         SIf CTimeFailed (seq [SFatal FTime]) (seq []);
-                        SIf (COr (CTimeAfter log_limit_secs) CErrnoChanged)
+                        SIf (COr (CTimeAfter lim) CErrnoChanged)
                             (seq [SLog PInfo TAcceptFail; SSetLastErrno; SSetLastTime]) (seq []);
                         SWait; SContinue])
                   (seq [SFatal FAccept])])])
@@ -300,6 +300,9 @@ Definition job_ref : prog := mkprog
        (seq [SIf CBindFails (seq [SDestroy; SLog PWarning TBind])
        (seq [SIf CQueueFails (seq [SDestroy; SLog PWarning TQueue]) (seq [])])])])])
   (seq [SLog PNotice TExiting; SFini true; SReturn]).
+
+(* with the value LOG_LIMIT_SECS has in job.c today *)
+Definition job_ref : prog := job_prog log_limit_secs.
 
 (* ---- the clauses of C12 that concern the acceptor, as monitors over the call log ---- *)
 (* The monitors read a log in chronological order.  None = the clause is violated. *)
@@ -377,6 +380,17 @@ Definition estep (p : option nat) (e : event) : option (option nat) :=
   | _ => Some p
   end.
 
+(* (P) progress: the acceptor does not keep making calls without blocking where it is meant to wait
+   (accept, work_wait, work_fini): at most [progress_bound] other calls in a row (the longest stretch of the
+   unchanged code is 8: a failed work_queue and its clean-up, then the service of a SIGHUP). *)
+Definition progress_bound : nat := 8.
+Definition pstep (n : nat) (e : event) : option nat :=
+  match e with
+  | ESig _ => Some n
+  | EAcceptConn _ | EAcceptErr _ | EWait | EFini _ => Some O
+  | _ => if (n <? progress_bound)%nat then Some (S n) else None
+  end.
+
 Section Monitor.
 Variable M : Type.
 Variable step : M -> event -> option M.
@@ -410,5 +424,7 @@ Definition stop_ok (l : list event) (k : ctl) : bool :=
   | None => false end.
 Definition sighup_ok (l : list event) : bool := isSome (mon estep None l).
 
-Definition clauses (l : list event) (k : ctl) : bool * bool * bool * bool :=
-  (handoff_ok l k, backlog_ok l k, stop_ok l k, sighup_ok l).
+Definition progress_ok (l : list event) : bool := isSome (mon pstep O l).
+
+Definition clauses (l : list event) (k : ctl) : bool * bool * bool * bool * bool :=
+  (handoff_ok l k, backlog_ok l k, stop_ok l k, sighup_ok l, progress_ok l).
